@@ -2,7 +2,12 @@ module verifharness
 
 go 1.25.0
 
-require github.com/nspcc-dev/neofs-node v0.0.0
+require (
+	github.com/klauspost/compress v1.18.4
+	github.com/nspcc-dev/neo-go v0.122.1-0.20260807115931-cfee8827ddfd
+	github.com/nspcc-dev/neofs-node v0.0.0
+	github.com/nspcc-dev/neofs-sdk-go v1.0.0-rc.21.0.20260807155929-203994967075
+)
 
 require (
 	github.com/antlr4-go/antlr/v4 v4.13.1 // indirect
@@ -24,10 +29,8 @@ require (
 	github.com/nspcc-dev/bbolt v0.0.0-20260404200350-24f70ceb2bd9 // indirect
 	github.com/nspcc-dev/go-ordered-json v0.0.0-20260302080601-ff7471f924b3 // indirect
 	github.com/nspcc-dev/hrw/v2 v2.0.4 // indirect
-	github.com/nspcc-dev/neo-go v0.122.1-0.20260807115931-cfee8827ddfd // indirect
 	github.com/nspcc-dev/neo-go/pkg/interop v0.0.0-20260609115526-14bc7067ea2e // indirect
 	github.com/nspcc-dev/neofs-contract v0.26.1 // indirect
-	github.com/nspcc-dev/neofs-sdk-go v1.0.0-rc.21.0.20260807155929-203994967075 // indirect
 	github.com/nspcc-dev/rfc6979 v0.2.4 // indirect
 	github.com/nspcc-dev/tzhash v1.8.4 // indirect
 	github.com/pierrec/lz4 v2.6.1+incompatible // indirect
@@ -43,6 +46,7 @@ require (
 	golang.org/x/crypto v0.52.0 // indirect
 	golang.org/x/exp v0.0.0-20250911091902-df9299821621 // indirect
 	golang.org/x/net v0.55.0 // indirect
+	golang.org/x/sync v0.20.0 // indirect
 	golang.org/x/sys v0.45.0 // indirect
 	golang.org/x/text v0.37.0 // indirect
 	google.golang.org/genproto/googleapis/rpc v0.0.0-20260414002931-afd174a4e478 // indirect
